@@ -101,6 +101,9 @@ func c07(e *Env) {
 		rush = c.Choose("rushks", 5)
 	}
 	useChecked, failedUses := 0, 0
+	servedSlot := map[int]bool{}
+	var armedUse *world.ClientReq // the USE for whose new session connections are lost at start-up (some runs)
+	armNow := false
 	// prepared statements a client may EXECUTE: id and the token of its PREPARE
 	type c07prep struct {
 		id, rmid []byte
@@ -133,6 +136,9 @@ func c07(e *Env) {
 			return // a client that has left
 		}
 		s := st[i]
+		if rep.Frame != nil && req.Kind != "use" && req.Kind != "startup" {
+			servedSlot[i] = true // (the session for this slot's version and compression exists)
+		}
 		if rep.Frame != nil && prepReqs[req] {
 			if pr, ok := rep.Frame.Body.Message.(*message.PreparedResult); ok {
 				preps[i] = append(preps[i], c07prep{pr.PreparedQueryId, pr.ResultMetadataId})
@@ -143,6 +149,12 @@ func c07(e *Env) {
 		}
 		s.pending = nil
 		u := s.pendUse
+		if req == armedUse {
+			armedUse = nil
+			for _, n := range w.Nodes {
+				n.DropNewConnsAtStartup = 0
+			}
+		}
 		defer func() {
 			_, succeeded := rep.Frame.Body.Message.(*message.SetKeyspaceResult)
 			for tok, pi := range pipes {
@@ -378,7 +390,9 @@ func c07(e *Env) {
 			}
 		}
 		s.left--
-		if c.Choose("use?", 4) == 0 {
+		if c.Choose("use?", 4) == 0 && armedUse == nil {
+			// (while a USE with an armed connection fault is being decided nobody else creates sessions:
+			// the fault is meant for the connections of that one session)
 			// a USE: the client waits for its answer before sending anything else
 			if len(cl.Outstanding) > 0 && c.Choose("use-while-requests-in-flight", 3) != 2 {
 				s.left++
@@ -404,7 +418,20 @@ func c07(e *Env) {
 				}
 				s.pendUse = u
 				s.stalled = stalledNode != nil
+				if !u.exists && !u.busy && p.NumConns >= 2 && stalledNode == nil && crashedNode == nil && !useInFlight && len(servedSlot) == len(f.clients) && c.Choose("c07one-new-conn-lost", 3) == 2 {
+					armNow = true
+					// while the session for a keyspace that does not exist is being connected, every node
+					// loses one of the new connections at start-up (a transient failure) and rejects the
+					// USE on the other: the rejection is what decides, the USE fails with the backend's error
+					for _, n := range w.Nodes {
+						n.DropNewConnsAtStartup = 1
+					}
+					e.Res.Stats["probe.c07.one_new_connection_lost_while_use_is_rejected"]++
+				}
 				s.pending = cl.Send("use", "", world.QueryMsg(text, primitive.ConsistencyLevelOne), nil)
+				if armNow {
+					armedUse, armNow = s.pending, false
+				}
 				if stalledNode == nil && crashedNode == nil && c.Choose("c07pipelined", 3) == 2 {
 					// the client does not wait for the answer before its next request
 					tok := w.NewToken()
